@@ -36,7 +36,8 @@ def required(tier):
     # classes name what the WORKLOAD constructed, not how the implementation answered (an implementation that sorts lines
     # first never raises on disorder and still satisfies the property)
     return ["hint<governing", "hint==governing", "hint==governing+1", "hint==len-1>governing", "hint>=len",
-            "directed:swap_inside_one_segment", "directed:later_segment_then_segment0", "contract_evaluated"] + \
+            "directed:swap_inside_one_segment", "directed:later_segment_then_segment0", "contract_evaluated",
+            "map_with_>=1000_tempo_events"] + \
            [f"disordered:{k}" for k in KINDS]
 
 
@@ -45,6 +46,7 @@ def shards(tier, seed):
     m = 8 if tier == "quick" else 40
     out += [{"name": f"rand-{i}", "kind": "random", "count": 20 if tier == "quick" else 250} for i in range(m)]
     out += [{"name": f"dis-{i}", "kind": "disorder", "count": 30 if tier == "quick" else 500} for i in range(m)]
+    out += [{"name": f"long-{i}", "kind": "long", "n": n} for i, n in enumerate([1100, 2600] if tier == "quick" else [1100, 1500, 2600, 5000])]
     return out
 
 
@@ -257,7 +259,24 @@ def judge_disordered(rec, text, kind, mode, directed=None):
 def run_shard(shard, rec, tier, seed):
     harness.setup()
     rng = harness.rng_for(seed, ID, shard["name"], 0)
-    if shard["kind"] == "scope":
+    if shard["kind"] == "long":
+        # thousands of tempo events: un-hinted and far-behind-hinted lookups must still answer (and agree with near hints);
+        # a sparse kind (one section marker after the last tempo change) is parsed with a hint thousands of events behind
+        n = shard["n"]
+        res = 192
+        tempos = [[7 * k, gen.usable_n(60000 + (k * 37) % 90000)] for k in range(n)]
+        ticks = [t for t, _ in tempos]
+        be = bpm_events_for(tempos, res)
+        for tick in (0, ticks[n // 2], ticks[-1] - 1, ticks[-1], ticks[-1] + 5, ticks[-1] + 10**5):
+            g = bisect.bisect_right(ticks, tick) - 1
+            for h in sorted({0, 1, max(0, g - 1000), max(0, g - 1), g, g + 1, n - 1, n}):
+                judge_query(rec, be, ticks, tick, h, lambda: {"kind": "query", "tempos": tempos, "resolution": res, "tick": tick, "hint": h})
+        text = gen.render_sections([("Song", [f"  Resolution = {res}"]), ("SyncTrack", ["  0 = TS 4"] + [f"  {t} = B {b}" for t, b in tempos] + [f"  {ticks[-1] + 3} = TS 3"]),
+                                    ("Events", ["  0 = E \"section start\"", f"  {ticks[-1] + 9} = E \"section outro\""]),
+                                    ("ExpertSingle", ["  0 = N 0 0", f"  {ticks[-1] + 9} = N 1 0", f"  {ticks[-1] + 9} = S 2 4", f"  {ticks[-1] + 10} = E solo"])])
+        judge_disordered(rec, text, "section", "sorted")
+        rec.cls("map_with_>=1000_tempo_events")
+    elif shard["kind"] == "scope":
         scope(rec, shard["n"], rng)
     elif shard["kind"] == "random":
         random_maps(rec, rng, shard["count"])
